@@ -715,7 +715,8 @@ example (K : Crypto) :
 theorem processDisconnectedTLV_run (s : MState) :
     runM processDisconnectedTLV s = .ok (.ok (),
       { s with
-        conv := { s.conv with lastMessageStateChange := none, msgState := .finished, smp := {}, ake := none, keys := {} }
+        conv := { s.conv with lastMessageStateChange := none, msgState := .finished, smp := {}, ake := none,
+                              keys := { oldMACKeys := s.conv.keys.oldMACKeys ++ s.conv.keys.macHistory.map (·.key) } }
         events := s.events ++ (if s.conv.msgState = .encrypted then ["sec:0"] else []) }) := by
   unfold processDisconnectedTLV
   by_cases h : s.conv.msgState = .encrypted <;> simp [beq_encrypted, h]
